@@ -902,7 +902,7 @@ fn syndrome_faults(ctx: &Ctx, rng: &mut Rng, s: &SizeInfo, b: usize, faults: &mu
     }
     let flavour = rng.below(20);
     // order of the recurrence: usually below t, sometimes t, t+1 or t+2
-    let v = if flavour == 19 { rng.range(t, (t + 2).min(k - 1)) } else { rng.range(1, t - 1) };
+    let v = if flavour == 19 { rng.range(t, (t + 2).min(k - 1)) } else if rng.chance(1, 5) { rng.range(1, 2.min(t - 1)) } else { rng.range(1, t - 1) };
     let mut syn: Vec<u8>;
     let mut poly: Vec<u8>; // x^v + p_{v-1} x^{v-1} + ... + p_0, highest degree first
     if flavour >= 16 {
@@ -1007,7 +1007,19 @@ fn syndrome_faults(ctx: &Ctx, rng: &mut Rng, s: &SizeInfo, b: usize, faults: &mu
         let cands = [2 * v, 2 * v + 1, t, t + 1, (t + v).saturating_sub(1), t + v, t + v + 1, k.saturating_sub(v), k - 1, k];
         let d = if rng.chance(1, 2) { *rng.pick(&cands) } else { rng.range(1, k) };
         let d = d.clamp(1, k); // 1-based syndrome index
-        syn[d - 1] ^= rng.nonzero_byte();
+        if rng.chance(1, 3) && syn[d - 1] != 0 {
+            // a multiplicative discrepancy: the sequence continues on another scale (alpha^+-1, alpha^+-2: what a
+            // carry or wrap in an exponent produces), not with an arbitrary value
+            let c = match rng.below(4) {
+                0 => 2u8,
+                1 => gf.inv(2),
+                2 => 4,
+                _ => gf.inv(4),
+            };
+            syn[d - 1] = gf.mul(syn[d - 1], c);
+        } else {
+            syn[d - 1] ^= rng.nonzero_byte();
+        }
         for j in d..k {
             // regenerate S_{j+1} (0-based j) from the previous v values, if available
             if j >= v {
